@@ -598,6 +598,7 @@ void transmit(queue_t& queue, const lsf_t& lsf)
     CRC16<0x5935, 0xFFFF> crc;
 
     audio_frame_t audio;
+    audio.fill(0);  // A partial first frame is padded with zeros, too.
     size_t index = 0;
     uint16_t frame_number = 0;
     uint8_t lich_segment = 0;
